@@ -108,8 +108,9 @@ Definition step_agrees (st0 st : lstate) (prev s : qstep) : bool :=
 
 (* the property itself, on the implementation's observables and the ground
    truth only: converged to decode(final) / stays at the last good value with
-   the error reported / not-exist tolerated; identical content gives no new
-   version *)
+   the error reported / not-exist tolerated; content identical to the one of
+   the current view gives no new version (`good` is no longer consulted: the
+   view may legitimately sit on an instant content of a double rewrite) *)
 (* the view did not move - or it moved to the content that was in the file for
    an instant (two rewrites back to back), which is then the last good one *)
 Definition kept (prev s : qstep) : bool :=
@@ -127,7 +128,7 @@ Definition step_property (good : option N) (prev s : qstep) : bool :=
   | Content c =>
       match decode c with
       | Some v => optN_eqb (q_last s) (Some v)
-                  && implb (optN_eqb good (Some c) && match q_mid s with None => true | Some _ => false end)
+                  && implb (optN_eqb (q_last prev) (Some v) && match q_mid s with None => true | Some _ => false end)
                            (q_nvals s =? q_nvals prev)
       | None => q_lasterr s && kept prev s
       end
